@@ -363,7 +363,7 @@ def c20(tier, seed, replay=None):
                      "machine-step boundaries, and with the switching thread frozen a pseudo-random number of line events *inside* its next step "
                      "(inside tracer.trace / primitive.f_wrapped / backward_pass / a rule) while the others take their steps; truly simultaneous "
                      "execution of two bytecodes is not explored",
-                     "thread-interleaving model: %s" % json.dumps(extra)], replicas=2, micro=True)
+                     "thread-interleaving model: %s" % json.dumps(extra)], replicas=2, micro=os.environ.get("VERIF_NO_MICRO") != "1")
     return rc
 
 
